@@ -6,12 +6,14 @@ import (
 	"bytes"
 	"context"
 	"encoding/json"
+	"errors"
 	"fmt"
 	"io"
 	"math/rand"
 	"mime"
 	"net/http"
 	"net/http/httptest"
+	"net/url"
 	"strconv"
 	"strings"
 	"sync"
@@ -27,11 +29,33 @@ import (
 //   resp  one Submit against a stub RoundTripper returning a generated response; the reader records the
 //         consumer it is handed (by pointer tag) and what it sees of the response
 //   conc  G goroutines x K calls on ONE fresh Runtime (first calls released together), every call carrying a
-//         token that the (stub or real httptest) server echoes; built with -race
+//         token that the (stub or real httptest) server echoes; built with -race. Readers keep the ClientResponse
+//         (as runtime.NewAPIError does) and ask it again for code and headers after later calls
+//   seq   N calls one after the other on ONE Runtime, each with its own response; the readers keep the
+//         ClientResponse; every kept response is asked again after each later call
+//   route one Submit against a redirecting stub: operation client absent / with its own Transport / without one,
+//         runtime client built lazily (Transport, Jar) or preset (NewWithClient); every client marked by what only
+//         the client object determines: redirect policy, cookie jar, timeout (and its transport, the process-wide
+//         default one when it has none)
 
 type c13Header struct {
 	Key    Bs   `json:"key"` // canonical
 	Values []Bs `json:"values"`
+}
+
+// c13Client describes an http.Client by the fields that the client itself (not its round tripper) acts on.
+type c13Client struct {
+	Transport bool `json:"transport,omitempty"` // a Transport of its own (else http.DefaultTransport)
+	Redirect  int  `json:"redirect,omitempty"`  // CheckRedirect: 0 none, 1 follows, 2 stops (http.ErrUseLastResponse)
+	Jar       bool `json:"jar,omitempty"`
+	Timeout   bool `json:"timeout,omitempty"`
+}
+
+type c13Call struct {
+	CT     *Bs `json:"ct"` // nil: no Content-Type header
+	Code   int `json:"code"`
+	Status Bs  `json:"status"`
+	Token  Bs  `json:"token"`
 }
 
 type c13In struct {
@@ -50,6 +74,39 @@ type c13In struct {
 	K         int         `json:"k,omitempty"`
 	Server    bool        `json:"server,omitempty"` // conc: a real httptest server and http.DefaultTransport-like transport
 	PreClient bool        `json:"pre_client,omitempty"`
+	NilHeader bool        `json:"nil_header,omitempty"` // resp: the round tripper returns a nil header map (only without headers)
+	// route
+	OpCfg    *c13Client `json:"op_cfg,omitempty"` // nil: no operation client
+	RtCfg    *c13Client `json:"rt_cfg,omitempty"`
+	RtPreset bool       `json:"rt_preset,omitempty"` // NewWithClient(preset) instead of the lazily built client (Transport, Jar fields of the Runtime)
+	Slow     bool       `json:"slow,omitempty"`      // the first answer takes longer than any client timeout
+	// seq
+	Calls []c13Call `json:"calls,omitempty"`
+}
+
+type c13View struct {
+	Code   int `json:"code"`
+	Status Bs  `json:"status"`
+	Token  Bs  `json:"token"`
+	CT     Bs  `json:"ct"`
+}
+
+type c13SeqObs struct {
+	Parsed  *Bs     `json:"parsed,omitempty"`
+	Outcome int     `json:"outcome"`
+	Tag     int     `json:"tag"`
+	First   c13View `json:"first"`
+	Later   c13View `json:"later"`
+	Msg     string  `json:"msg,omitempty"`
+}
+
+type c13Trace struct {
+	Transport int `json:"transport"`
+	Redirect  int `json:"redirect"`
+	Jar       int `json:"jar"`
+	Cookie    int `json:"cookie"`
+	Result    int `json:"result"`
+	Hops      int `json:"hops"`
 }
 
 type c13Query struct {
@@ -77,6 +134,10 @@ type c13Obs struct {
 	Mismatches int        `json:"mismatches"`
 	Errors     int        `json:"errors"`
 	FirstErr   string     `json:"first_err,omitempty"`
+	Stale      int        `json:"stale,omitempty"`
+	FirstStale string     `json:"first_stale,omitempty"`
+	Trace      *c13Trace  `json:"trace,omitempty"`
+	Seq        []c13SeqObs `json:"seq,omitempty"`
 }
 
 type c13 struct{}
@@ -88,8 +149,9 @@ func (c13) CoqModule() string { return "Check_C13" }
 func (c13) Rule() string {
 	return "Submit against a stub RoundTripper: response Content-Type registered / unregistered / with parameters / other case / absent / empty / several values / malformed, " +
 		"consumer registries with and without */* (and with a never-matching upper-case key), default media types, status codes and texts, header sets queried under several spellings, " +
-		"operation-level vs transport-level client and context; plus concurrent cases: G goroutines x K calls on one fresh Runtime with correlation tokens, stub transport or a real httptest server, under the race detector. " +
-		"Non-trivial: a response case whose registry has at least two entries, or any concurrent case."
+		"operation-level vs transport-level client and context; route cases: operation client absent / with / without a Transport of its own x runtime client lazily built or preset, each marked by redirect policy, cookie jar, timeout, against a redirecting (optionally slow) stub; " +
+		"sequences of calls on one Runtime whose readers keep the ClientResponse and ask it again after later calls; plus concurrent cases: G goroutines x K calls on one fresh Runtime with correlation tokens, stub transport or a real httptest server, under the race detector. " +
+		"Non-trivial: a response case whose registry has at least two entries, or any route, sequence or concurrent case."
 }
 
 func (c13) Decode(raw json.RawMessage) (any, error) {
@@ -129,6 +191,9 @@ func (s *c13Stub) RoundTrip(req *http.Request) (*http.Response, error) {
 	for _, hd := range s.in.Headers {
 		h[string(hd.Key)] = bsList(hd.Values)
 	}
+	if s.in.NilHeader && len(s.in.Headers) == 0 {
+		h = nil
+	}
 	return &http.Response{
 		StatusCode: s.in.Code, Status: string(s.in.Status), Proto: "HTTP/1.1", ProtoMajor: 1, ProtoMinor: 1,
 		Header: h, Body: io.NopCloser(bytes.NewReader([]byte(s.in.Body))), ContentLength: int64(len(s.in.Body)), Request: req,
@@ -146,8 +211,13 @@ func c13HeaderCT(in c13In) (string, bool) {
 
 func (c13) Run(inAny any) any {
 	in := inAny.(c13In)
-	if in.Kind == "conc" {
+	switch in.Kind {
+	case "conc":
 		return c13RunConc(in)
+	case "route":
+		return c13RunRoute(in)
+	case "seq":
+		return c13RunSeq(in)
 	}
 	var obs c13Obs
 	obs.Client, obs.Ctx = 9, 9
@@ -273,7 +343,9 @@ func c13RunConc(in c13In) c13Obs {
 	rt.Consumers = map[string]runtime.Consumer{"application/json": cj, "text/plain": ct, "*/*": cs}
 	wantTag := []int{1, 2, 3}
 	var mismatches, errs int32
-	var firstErr atomic.Value
+	var firstErr, firstStale atomic.Value
+	var keptMu sync.Mutex
+	var kept []*c13Kept
 	start := make(chan struct{})
 	var wg sync.WaitGroup
 	for g := 0; g < in.G; g++ {
@@ -281,6 +353,7 @@ func c13RunConc(in c13In) c13Obs {
 		go func(g int) {
 			defer wg.Done()
 			<-start
+			var mine []*c13Kept
 			for k := 0; k < in.K; k++ {
 				token := g*1000 + k
 				tokS := strconv.Itoa(token)
@@ -301,6 +374,8 @@ func c13RunConc(in c13In) c13Obs {
 						if cc, ok := c.(*c13Consumer); ok {
 							tag = cc.tag
 						}
+						// keep the response past Submit, as runtime.NewAPIError(name, response, code) does
+						mine = append(mine, &c13Kept{resp: resp, token: token})
 						return seen{tag, resp.Code(), string(b), resp.GetHeader("x-token")}, nil
 					}),
 				}
@@ -317,7 +392,14 @@ func c13RunConc(in c13In) c13Obs {
 				if !ok || s.body != tokS || s.hdr != tokS || s.tag != wantTag[token%3] || s.code != 200+token%3 {
 					atomic.AddInt32(&mismatches, 1)
 				}
+				// every response kept so far by this caller still answers for its own call
+				for _, kp := range mine {
+					kp.recheck(&firstStale)
+				}
 			}
+			keptMu.Lock()
+			kept = append(kept, mine...)
+			keptMu.Unlock()
 		}(g)
 	}
 	done := make(chan struct{})
@@ -333,7 +415,47 @@ func c13RunConc(in c13In) c13Obs {
 	if e, ok := firstErr.Load().(string); ok {
 		obs.FirstErr = e
 	}
+	// once everything is over, every kept response is asked again
+	keptMu.Lock()
+	for _, kp := range kept {
+		kp.recheck(&firstStale)
+		if kp.stale {
+			obs.Stale++
+		}
+	}
+	keptMu.Unlock()
+	if e, ok := firstStale.Load().(string); ok {
+		obs.FirstStale = e
+	}
 	return obs
+}
+
+// c13Kept is a ClientResponse kept by its reader past the end of Submit.
+type c13Kept struct {
+	resp  runtime.ClientResponse
+	token int
+	stale bool
+}
+
+func (k *c13Kept) recheck(first *atomic.Value) {
+	if k.stale {
+		return
+	}
+	tokS := strconv.Itoa(k.token)
+	wantCT := []string{"application/json", "text/plain; charset=utf-8", "application/x-other"}[k.token%3]
+	var code int
+	var tok, ct string
+	if p, msg := recoverTo(func() {
+		code, tok, ct = k.resp.Code(), k.resp.GetHeader("X-Token"), k.resp.GetHeader("Content-Type")
+	}); p {
+		k.stale = true
+		first.CompareAndSwap(nil, "call "+tokS+": asking the kept response again panics: "+msg)
+		return
+	}
+	if code != 200+k.token%3 || tok != tokS || ct != wantCT {
+		k.stale = true
+		first.CompareAndSwap(nil, fmt.Sprintf("call %s: the kept response now answers code=%d X-Token=%q Content-Type=%q", tokS, code, tok, ct))
+	}
 }
 
 func c13Transport(in c13In) http.RoundTripper {
@@ -343,12 +465,333 @@ func c13Transport(in c13In) http.RoundTripper {
 	return c13Echo{}
 }
 
+// ---------- which client object carries the call ----------
+
+const (
+	c13WhoOp      = 1
+	c13WhoRt      = 2
+	c13WhoDefault = 4
+	c13WhoRtField = 8 // the Runtime's Transport field although a client was preset: must never carry a call
+)
+
+type c13Rec struct {
+	mu                                   sync.Mutex
+	transport, redirect, jar, cookie, hops int
+	ctx                                  int
+}
+
+func (r *c13Rec) or(field *int, who int) {
+	r.mu.Lock()
+	*field |= who
+	r.mu.Unlock()
+}
+
+type c13RouteStub struct {
+	who  int
+	rec  *c13Rec
+	slow bool
+}
+
+func (s *c13RouteStub) RoundTrip(req *http.Request) (*http.Response, error) {
+	s.rec.mu.Lock()
+	s.rec.transport |= s.who
+	s.rec.hops++
+	hop := s.rec.hops
+	if hop == 1 {
+		switch req.Context().Value(c13CtxKey{}) {
+		case "op":
+			s.rec.ctx = 0
+		case "rt":
+			s.rec.ctx = 1
+		default:
+			s.rec.ctx = 2
+		}
+		switch strings.Join(req.Header["Cookie"], "|") {
+		case "":
+			s.rec.cookie = 0
+		case "who=1":
+			s.rec.cookie = c13WhoOp
+		case "who=2":
+			s.rec.cookie = c13WhoRt
+		default:
+			s.rec.cookie = 64
+		}
+	}
+	s.rec.mu.Unlock()
+	if req.Body != nil {
+		_, _ = io.Copy(io.Discard, req.Body)
+		_ = req.Body.Close()
+	}
+	mk := func(code int, status string, h http.Header, body string) *http.Response {
+		return &http.Response{StatusCode: code, Status: status, Proto: "HTTP/1.1", ProtoMajor: 1, ProtoMinor: 1,
+			Header: h, Body: io.NopCloser(strings.NewReader(body)), ContentLength: int64(len(body)), Request: req}
+	}
+	if req.URL.Path == "/final" {
+		return mk(200, "200 OK", http.Header{"Content-Type": {"application/json"}}, "{}"), nil
+	}
+	if s.slow {
+		select {
+		case <-req.Context().Done():
+			return nil, req.Context().Err()
+		case <-req.Cancel: //nolint:staticcheck // the way http.Client cancels a round tripper it does not know
+			return nil, errors.New("net/http: request canceled")
+		case <-time.After(c13SlowDelay):
+		}
+	}
+	return mk(302, "302 Found", http.Header{"Content-Type": {"application/json"}, "Location": {"/final"}, "Set-Cookie": {"seen=1"}}, "{}"), nil
+}
+
+const (
+	c13SlowDelay    = 700 * time.Millisecond
+	c13ShortTimeout = 25 * time.Millisecond
+)
+
+type c13Jar struct {
+	who int
+	rec *c13Rec
+}
+
+func (j *c13Jar) SetCookies(u *url.URL, cookies []*http.Cookie) { j.rec.or(&j.rec.jar, j.who) }
+func (j *c13Jar) Cookies(u *url.URL) []*http.Cookie {
+	j.rec.or(&j.rec.jar, j.who)
+	return []*http.Cookie{{Name: "who", Value: strconv.Itoa(j.who)}}
+}
+
+func c13MakeClient(who int, cfg c13Client, rec *c13Rec, slow bool) *http.Client {
+	c := &http.Client{}
+	if cfg.Transport {
+		c.Transport = &c13RouteStub{who: who, rec: rec, slow: slow}
+	}
+	switch cfg.Redirect {
+	case 1:
+		c.CheckRedirect = func(*http.Request, []*http.Request) error { rec.or(&rec.redirect, who); return nil }
+	case 2:
+		c.CheckRedirect = func(*http.Request, []*http.Request) error {
+			rec.or(&rec.redirect, who)
+			return http.ErrUseLastResponse
+		}
+	}
+	if cfg.Jar {
+		c.Jar = &c13Jar{who: who, rec: rec}
+	}
+	if cfg.Timeout {
+		c.Timeout = 30 * time.Second
+		if slow {
+			c.Timeout = c13ShortTimeout
+		}
+	}
+	return c
+}
+
+func c13RunRoute(in c13In) c13Obs {
+	var obs c13Obs
+	rec := &c13Rec{ctx: 9}
+	rtCfg := c13Client{}
+	if in.RtCfg != nil {
+		rtCfg = *in.RtCfg
+	}
+	var rt *client.Runtime
+	if in.RtPreset {
+		rt = client.NewWithClient("example.com", "/", []string{"http"}, c13MakeClient(c13WhoRt, rtCfg, rec, in.Slow))
+		rt.Transport = &c13RouteStub{who: c13WhoRtField, rec: rec, slow: in.Slow}
+	} else {
+		// the client the Runtime builds on first use from its Transport and Jar fields
+		rt = client.New("example.com", "/", []string{"http"})
+		rt.Transport = nil
+		if rtCfg.Transport {
+			rt.Transport = &c13RouteStub{who: c13WhoRt, rec: rec, slow: in.Slow}
+		}
+		if rtCfg.Jar {
+			rt.Jar = &c13Jar{who: c13WhoRt, rec: rec}
+		}
+	}
+	cj := &c13Consumer{1}
+	rt.Consumers = map[string]runtime.Consumer{"application/json": cj}
+	rt.Context = nil
+	if in.RtCtx {
+		rt.Context = context.WithValue(context.Background(), c13CtxKey{}, "rt")
+	}
+	code := 0
+	op := &runtime.ClientOperation{
+		ID: "op", Method: "GET", PathPattern: "/x", ProducesMediaTypes: []string{"application/json"},
+		ConsumesMediaTypes: []string{"application/json"}, Schemes: []string{"http"},
+		Params: runtime.ClientRequestWriterFunc(func(runtime.ClientRequest, strfmt.Registry) error { return nil }),
+		Reader: runtime.ClientResponseReaderFunc(func(resp runtime.ClientResponse, c runtime.Consumer) (interface{}, error) {
+			code = resp.Code()
+			_, _ = io.ReadAll(resp.Body())
+			return nil, nil
+		}),
+	}
+	if in.OpCfg != nil {
+		op.Client = c13MakeClient(c13WhoOp, *in.OpCfg, rec, in.Slow)
+	}
+	if in.OpCtx {
+		op.Context = context.WithValue(context.Background(), c13CtxKey{}, "op")
+	}
+	// a client without a Transport of its own sends through the process-wide default transport: a marked stub for
+	// the duration of the call (cases run one after the other)
+	old := http.DefaultTransport
+	http.DefaultTransport = &c13RouteStub{who: c13WhoDefault, rec: rec, slow: in.Slow}
+	var err error
+	done := make(chan struct{})
+	go func() {
+		defer close(done)
+		obs.Panicked, obs.Panic = recoverTo(func() { _, err = rt.Submit(op) })
+	}()
+	select {
+	case <-done:
+	case <-time.After(20 * time.Second):
+		http.DefaultTransport = old
+		obs.Trace = &c13Trace{Result: 8}
+		obs.FirstErr = "watchdog: Submit did not return"
+		return obs
+	}
+	http.DefaultTransport = old
+	rec.mu.Lock()
+	tr := &c13Trace{Transport: rec.transport, Redirect: rec.redirect, Jar: rec.jar, Cookie: rec.cookie, Hops: rec.hops, Result: 9}
+	obs.Ctx = rec.ctx
+	rec.mu.Unlock()
+	var ue *url.Error
+	switch {
+	case obs.Panicked:
+	case err == nil && code == 200 && tr.Hops == 2:
+		tr.Result = 0
+	case err == nil && code == 302 && tr.Hops == 1:
+		tr.Result = 1
+	case err != nil && errors.As(err, &ue) && ue.Timeout():
+		tr.Result = 2
+	}
+	if err != nil {
+		obs.Msg = Bs(err.Error())
+	}
+	obs.Code = code
+	obs.Trace = tr
+	return obs
+}
+
+// ---------- several calls one after the other, readers that keep the response ----------
+
+type c13SeqStub struct{ in *c13In }
+
+func (s c13SeqStub) RoundTrip(req *http.Request) (*http.Response, error) {
+	i, _ := strconv.Atoi(req.Header.Get("X-Call"))
+	if req.Body != nil {
+		_, _ = io.Copy(io.Discard, req.Body)
+		_ = req.Body.Close()
+	}
+	call := s.in.Calls[i]
+	h := http.Header{"X-Token": {string(call.Token)}}
+	if call.CT != nil {
+		h["Content-Type"] = []string{string(*call.CT)}
+	}
+	return &http.Response{StatusCode: call.Code, Status: string(call.Status), Proto: "HTTP/1.1", ProtoMajor: 1, ProtoMinor: 1,
+		Header: h, Body: io.NopCloser(strings.NewReader(string(call.Token))), ContentLength: int64(len(call.Token)), Request: req}, nil
+}
+
+func c13ViewOf(resp runtime.ClientResponse) (v c13View) {
+	if p, msg := recoverTo(func() {
+		v = c13View{Code: resp.Code(), Status: Bs(resp.Message()), Token: Bs(resp.GetHeader("X-Token")), CT: Bs(resp.GetHeader("Content-Type"))}
+	}); p {
+		v = c13View{Code: 0, Status: Bs("panic: " + msg)}
+	}
+	return v
+}
+
+func c13RunSeq(in c13In) c13Obs {
+	var obs c13Obs
+	rt := client.New("example.com", "/", []string{"http"})
+	rt.DefaultMediaType = string(in.Default)
+	rt.Producers[string(in.Default)] = runtime.JSONProducer()
+	cons := map[string]runtime.Consumer{}
+	tags := map[runtime.Consumer]int{}
+	for i, k := range in.Registry {
+		c := &c13Consumer{tag: i + 1}
+		cons[string(k)] = c
+		tags[c] = i + 1
+	}
+	rt.Consumers = cons
+	rt.Transport = c13SeqStub{in: &in}
+	obs.Seq = make([]c13SeqObs, len(in.Calls))
+	kept := make([]runtime.ClientResponse, len(in.Calls))
+	deviated := make([]bool, len(in.Calls))
+	for i := range in.Calls {
+		i := i
+		so := &obs.Seq[i]
+		eff := string(in.Default)
+		if in.Calls[i].CT != nil && len(*in.Calls[i].CT) > 0 {
+			eff = string(*in.Calls[i].CT)
+		}
+		if mt, _, err := mime.ParseMediaType(eff); err == nil {
+			b := Bs(mt)
+			so.Parsed = &b
+		}
+		op := &runtime.ClientOperation{
+			ID: "op", Method: "GET", PathPattern: "/x", ProducesMediaTypes: []string{"application/json"},
+			ConsumesMediaTypes: []string{"application/json"}, Schemes: []string{"http"},
+			Params: runtime.ClientRequestWriterFunc(func(req runtime.ClientRequest, _ strfmt.Registry) error {
+				return req.SetHeaderParam("X-Call", strconv.Itoa(i))
+			}),
+			Reader: runtime.ClientResponseReaderFunc(func(resp runtime.ClientResponse, c runtime.Consumer) (interface{}, error) {
+				so.Tag = tags[c]
+				so.First = c13ViewOf(resp)
+				_, _ = io.ReadAll(resp.Body())
+				kept[i] = resp // as runtime.NewAPIError(name, response, code) does
+				return nil, nil
+			}),
+		}
+		var err error
+		p, msg := recoverTo(func() { _, err = rt.Submit(op) })
+		switch {
+		case p:
+			obs.Panicked, obs.Panic = true, msg
+			so.Outcome = 3
+		case err == nil:
+		case strings.HasPrefix(err.Error(), "parse content type"):
+			so.Outcome, so.Msg = 1, err.Error()
+		case strings.HasPrefix(err.Error(), "no consumer"):
+			so.Outcome, so.Msg = 2, err.Error()
+		default:
+			so.Outcome, so.Msg = 3, err.Error()
+		}
+		// every response kept so far is asked again; the first answer that deviates is the one reported
+		for j := 0; j <= i; j++ {
+			if kept[j] == nil || deviated[j] {
+				continue
+			}
+			obs.Seq[j].Later = c13ViewOf(kept[j])
+			if fmt.Sprint(obs.Seq[j].Later) != fmt.Sprint(obs.Seq[j].First) {
+				deviated[j] = true
+			}
+		}
+	}
+	return obs
+}
+
 // ---------- rendering ----------
 
 func (c13) Coq(inAny any, obsAny any) string {
 	in, obs := inAny.(c13In), obsAny.(c13Obs)
 	if in.Kind == "conc" {
-		return fmt.Sprintf("CConc %d %d %d %d", in.G, in.K, obs.Mismatches, obs.Errors)
+		return fmt.Sprintf("CConc %d %d %d %d %d", in.G, in.K, obs.Mismatches, obs.Errors, obs.Stale)
+	}
+	if in.Kind == "route" {
+		cl := func(c c13Client) string {
+			return fmt.Sprintf("(mkclient %s %d %s %s)", coqBool(c.Transport), c.Redirect, coqBool(c.Jar), coqBool(c.Timeout))
+		}
+		opT := "None"
+		if in.OpCfg != nil {
+			opT = "(Some " + cl(*in.OpCfg) + ")"
+		}
+		rtCfg := c13Client{}
+		if in.RtCfg != nil {
+			rtCfg = *in.RtCfg
+		}
+		tr := obs.Trace
+		if tr == nil {
+			tr = &c13Trace{Result: 9}
+		}
+		return fmt.Sprintf("CRoute %s %s %s %s %s %s (mktrace %d %d %d %d %d) %d", opT, cl(rtCfg), coqBool(in.Slow), coqBool(in.OpCtx), coqBool(in.RtCtx),
+			coqBool(obs.Panicked), tr.Transport, tr.Redirect, tr.Jar, tr.Cookie, tr.Result, obs.Ctx)
 	}
 	reg := make([]string, len(in.Registry))
 	for i, k := range in.Registry {
@@ -357,6 +800,31 @@ func (c13) Coq(inAny any, obsAny any) string {
 	regT := "[" + strings.Join(reg, "; ") + "]"
 	if len(reg) == 0 {
 		regT = "[]"
+	}
+	if in.Kind == "seq" {
+		view := func(v c13View) string {
+			return fmt.Sprintf("(%d, %s, %s, %s)", v.Code, coqBytes(string(v.Status)), coqBytes(string(v.Token)), coqBytes(string(v.CT)))
+		}
+		calls := make([]string, len(in.Calls))
+		for i, c := range in.Calls {
+			so := c13SeqObs{Outcome: 3}
+			if i < len(obs.Seq) {
+				so = obs.Seq[i]
+			}
+			parsed := "None"
+			if so.Parsed != nil {
+				parsed = "(Some " + coqBytes(string(*so.Parsed)) + ")"
+			}
+			hd := ""
+			if c.CT != nil {
+				hd = coqPair(coqBytes("Content-Type"), coqBytesList([]string{string(*c.CT)})) + "; "
+			}
+			hd += coqPair(coqBytes("X-Token"), coqBytesList([]string{string(c.Token)}))
+			resp := fmt.Sprintf("(mkresp %d %s [%s] %s)", c.Code, coqBytes(string(c.Status)), hd, coqBytes(string(c.Token)))
+			calls[i] = fmt.Sprintf("(mkseq %s %s %d %d %s %s)", parsed, resp, so.Outcome, so.Tag, view(so.First), view(so.Later))
+		}
+		callsT := "[" + strings.Join(calls, "; ") + "]"
+		return fmt.Sprintf("CSeq %s %s %s", regT, coqBytes(string(in.Default)), callsT)
 	}
 	parsed := "None"
 	if obs.Parsed != nil {
@@ -387,6 +855,43 @@ func (c13) Category(inAny any, obsAny any) (string, bool) {
 			m += "+preset-client"
 		}
 		return "conc/" + m, true
+	}
+	if in.Kind == "route" {
+		name := func(c *c13Client) string {
+			if c == nil {
+				return "none"
+			}
+			n := "bare"
+			if c.Transport {
+				n = "own-transport"
+			}
+			if c.Redirect != 0 || c.Jar || c.Timeout {
+				n += "+policy"
+			}
+			return n
+		}
+		rtk := "rt-lazy:"
+		if in.RtPreset {
+			rtk = "rt-preset:"
+		}
+		res := "?"
+		if obs.Trace != nil && obs.Trace.Result < 3 {
+			res = []string{"final", "redirect-response", "timeout"}[obs.Trace.Result]
+		}
+		slow := ""
+		if in.Slow {
+			slow = "/slow"
+		}
+		return "route/op:" + name(in.OpCfg) + "/" + rtk + name(in.RtCfg) + slow + "/" + res, true
+	}
+	if in.Kind == "seq" {
+		fails := 0
+		for _, so := range obs.Seq {
+			if so.Outcome != 0 {
+				fails++
+			}
+		}
+		return fmt.Sprintf("seq/calls=%d/failed=%d", len(in.Calls), fails), true
 	}
 	hct, has := c13HeaderCT(in)
 	star := false
@@ -425,7 +930,17 @@ func (c13) Category(inAny any, obsAny any) (string, bool) {
 
 // ---------- generator ----------
 
-var c13Keys = []string{"application/json", "text/plain", "application/xml", "application/x-custom", "Application/Upper", "text/html", "*/*"}
+var c13Keys = []string{"application/json", "text/plain", "application/xml", "application/x-custom", "Application/Upper", "text/html", "*/*",
+	// keys that must never be reached by any kind of approximate matching
+	"application/*", "text/*", "application/vnd.api+json", "application/json; charset=utf-8", "json", "application"}
+
+// well-formed media types that are close to a registered one without being it: structured-syntax suffixes (RFC 6839),
+// a shared prefix, a shared subtype, a type wildcard
+var c13NearCTs = []string{
+	"application/vnd.api+json", "application/problem+json; charset=utf-8", "application/ld+json", "application/atom+xml", "image/svg+xml",
+	"text/x-note+plain", "text/vnd.a+html", "application/a+b+json", "application/+json", "application/jsonx", "application/jso", "text/json",
+	"x/plain", "text/*", "application/json+json", "application/vnd.API+JSON",
+}
 var c13CTs = []string{
 	"application/json", "text/plain", "application/xml", "application/x-custom", "application/x-unknown", "image/png",
 	"application/json; charset=utf-8", "text/plain;charset=\"utf-8\"", "Application/JSON", "TEXT/PLAIN; Charset=UTF-8", "application/upper",
@@ -433,7 +948,7 @@ var c13CTs = []string{
 	// malformed
 	"text/plain; charset", "text/plain;;", ";", "/", "text/", "a b", "text/plain; x=\"", "text/plain; a=1; a=2", "\"quoted\"/type", "text/pl\\ain", "caf\xc3\xa9/x", "text/plain; =v",
 }
-var c13Defaults = []string{"application/json", "application/json", "text/plain", "application/x-default", "application/x-custom", "", "not a type;;"}
+var c13Defaults = []string{"application/json", "application/json", "text/plain", "application/x-default", "application/x-custom", "", "not a type;;", "application/vnd.api+json", "application/problem+xml"}
 var c13Codes = []int{200, 200, 201, 204, 206, 301, 304, 400, 401, 404, 418, 500, 503, 599}
 var c13HeaderKeys = []string{"X-Request-Id", "X-Rate-Limit", "Etag", "Set-Cookie", "Content-Length", "X-Multi"}
 var c13QueryNames = []string{"x-request-id", "X-REQUEST-ID", "X-Request-Id", "etag", "ETag", "content-type", "Content-Type", "X-Missing", "x-multi", "set-cookie", "x rate limit", "X-Rate-Limit"}
@@ -441,6 +956,12 @@ var c13QueryNames = []string{"x-request-id", "X-REQUEST-ID", "X-Request-Id", "et
 func (c13) Gen(r *rand.Rand, tier string, i int) any {
 	if i%97 == 96 {
 		return c13In{Kind: "conc", G: 2 + r.Intn(15), K: 1 + r.Intn(4), Server: r.Intn(3) == 0, PreClient: r.Intn(4) == 0, Default: "application/json"}
+	}
+	if i%31 == 30 {
+		return c13GenSeq(r)
+	}
+	if i%13 == 12 {
+		return c13GenRoute(r)
 	}
 	in := c13In{Kind: "resp", Default: Bs(c13Defaults[r.Intn(len(c13Defaults))])}
 	perm := r.Perm(len(c13Keys))
@@ -459,6 +980,8 @@ func (c13) Gen(r *rand.Rand, tier string, i int) any {
 		in.Headers = append(in.Headers, c13Header{Key: "Content-Type", Values: []Bs{""}})
 	case 2:
 		in.Headers = append(in.Headers, c13Header{Key: "Content-Type", Values: []Bs{Bs(c13CTs[r.Intn(len(c13CTs))]), Bs(c13CTs[r.Intn(len(c13CTs))])}})
+	case 3, 4:
+		in.Headers = append(in.Headers, c13Header{Key: "Content-Type", Values: []Bs{Bs(c13NearCTs[r.Intn(len(c13NearCTs))])}})
 	default:
 		k := r.Intn(len(c13CTs))
 		if r.Intn(2) == 0 {
@@ -484,21 +1007,133 @@ func (c13) Gen(r *rand.Rand, tier string, i int) any {
 	for j := r.Intn(4); j > 0; j-- {
 		in.Queries = append(in.Queries, Bs(c13QueryNames[r.Intn(len(c13QueryNames))]))
 	}
+	// the reader compares the headers it sees with the headers sent: the content type (absent stays absent) and the others
+	if r.Intn(2) == 0 {
+		in.Queries = append(in.Queries, "Content-Type")
+	}
+	for _, h := range in.Headers {
+		if r.Intn(3) == 0 {
+			in.Queries = append(in.Queries, h.Key)
+		}
+	}
+	if r.Intn(40) == 0 {
+		in.Headers, in.NilHeader = nil, true
+	}
 	in.OpClient, in.OpCtx, in.RtCtx = r.Intn(3) == 0, r.Intn(3) == 0, r.Intn(2) == 0
+	return in
+}
+
+func c13GenClient(r *rand.Rand) *c13Client {
+	return &c13Client{Transport: r.Intn(2) == 0, Redirect: r.Intn(3), Jar: r.Intn(2) == 0, Timeout: r.Intn(3) == 0}
+}
+
+func c13GenRoute(r *rand.Rand) c13In {
+	in := c13In{Kind: "route", Default: "application/json", OpCtx: r.Intn(3) == 0, RtCtx: r.Intn(2) == 0}
+	if r.Intn(4) != 0 {
+		in.OpCfg = c13GenClient(r)
+	}
+	in.RtCfg = c13GenClient(r)
+	in.RtPreset = r.Intn(2) == 0
+	if !in.RtPreset { // the lazily built client has a transport and a jar only
+		in.RtCfg.Redirect, in.RtCfg.Timeout = 0, false
+	}
+	if r.Intn(10) == 0 {
+		in.Slow = true
+		if r.Intn(4) != 0 { // mostly: the client that has to carry the call times out
+			if in.OpCfg != nil {
+				in.OpCfg.Timeout = true
+			} else {
+				in.RtPreset, in.RtCfg.Timeout = true, true
+			}
+		}
+	}
+	return in
+}
+
+var c13SeqCTs = []string{"application/json", "text/plain; charset=utf-8", "application/x-none", "application/vnd.api+json", ";", "<absent>", "application/xml"}
+
+func c13GenSeq(r *rand.Rand) c13In {
+	in := c13In{Kind: "seq", Default: "application/json"}
+	for _, k := range []string{"application/json", "text/plain", "application/xml", "*/*"} {
+		if r.Intn(3) != 0 {
+			in.Registry = append(in.Registry, Bs(k))
+		}
+	}
+	for j, n := 0, 2+r.Intn(6); j < n; j++ {
+		code := c13Codes[r.Intn(len(c13Codes))]
+		c := c13Call{Code: code, Status: Bs(fmt.Sprintf("%d %s", code, http.StatusText(code))), Token: Bs(fmt.Sprintf("t%d-%d", j, r.Intn(1000)))}
+		if ct := c13SeqCTs[r.Intn(len(c13SeqCTs))]; ct != "<absent>" {
+			b := Bs(ct)
+			c.CT = &b
+		}
+		in.Calls = append(in.Calls, c)
+	}
 	return in
 }
 
 func (c13) Enumerate(tier string) []any {
 	var out []any
 	// every content-type spelling x registries {none, exact only, star only, both, other only}
-	regs := [][]Bs{nil, {"application/json", "text/plain"}, {"*/*"}, {"application/json", "text/plain", "*/*"}, {"application/xml"}}
-	for _, ct := range append([]string{"<absent>", ""}, c13CTs...) {
+	regs := [][]Bs{nil, {"application/json", "text/plain"}, {"*/*"}, {"application/json", "text/plain", "*/*"}, {"application/xml"},
+		{"application/json", "application/xml", "text/plain", "text/html", "application/*", "text/*", "json", "application"},
+		{"application/vnd.api+json", "application/json", "*/*"}}
+	for _, ct := range append(append([]string{"<absent>", "<nil>", ""}, c13CTs...), c13NearCTs...) {
 		for _, reg := range regs {
 			in := c13In{Kind: "resp", Default: "application/json", Registry: reg, Code: 200, Status: "200 OK", Body: "body", Queries: []Bs{"content-type"}}
-			if ct != "<absent>" {
+			switch ct {
+			case "<absent>":
+			case "<nil>":
+				in.NilHeader = true
+			default:
 				in.Headers = []c13Header{{Key: "Content-Type", Values: []Bs{Bs(ct)}}}
 			}
 			out = append(out, in)
+		}
+	}
+	// the default media type standing in for an absent header, itself close to a registered type
+	for _, d := range c13NearCTs[:6] {
+		for _, reg := range regs[1:4] {
+			out = append(out, c13In{Kind: "resp", Default: Bs(d), Registry: reg, Code: 200, Status: "200 OK", Body: "body", Queries: []Bs{"Content-Type"}})
+		}
+	}
+	// which client object carries the call: every operation client x every runtime client
+	var ops []*c13Client
+	var rts []c13In
+	for m := 0; m < 24; m++ {
+		c := &c13Client{Transport: m&1 != 0, Jar: m&2 != 0, Timeout: m&4 != 0, Redirect: m / 8}
+		ops = append(ops, c)
+		rts = append(rts, c13In{RtPreset: true, RtCfg: c})
+		if c.Redirect == 0 && !c.Timeout {
+			rts = append(rts, c13In{RtCfg: c})
+		}
+	}
+	ops = append(ops, nil)
+	n := 0
+	for _, o := range ops {
+		for _, rt := range rts {
+			out = append(out, c13In{Kind: "route", Default: "application/json", OpCfg: o, RtCfg: rt.RtCfg, RtPreset: rt.RtPreset, OpCtx: n&1 != 0, RtCtx: n&2 != 0})
+			n++
+		}
+	}
+	// against a server slower than the timeouts
+	for _, o := range []*c13Client{nil, {Timeout: true}, {Redirect: 2}, {Transport: true, Timeout: true}} {
+		for _, rt := range []c13In{{RtCfg: &c13Client{Transport: true}}, {RtPreset: true, RtCfg: &c13Client{Transport: true, Timeout: true}}, {RtPreset: true, RtCfg: &c13Client{Jar: true, Timeout: true}}} {
+			out = append(out, c13In{Kind: "route", Default: "application/json", OpCfg: o, RtCfg: rt.RtCfg, RtPreset: rt.RtPreset, Slow: true})
+		}
+	}
+	// calls one after the other on one Runtime, the readers keeping their responses
+	bp := func(s string) *Bs { b := Bs(s); return &b }
+	seqs := [][]c13Call{
+		{{CT: bp("application/json"), Code: 200, Status: "200 OK", Token: "a"}, {CT: bp("application/json"), Code: 404, Status: "404 Not Found", Token: "b"}},
+		{{CT: bp("application/json"), Code: 500, Status: "500 Internal Server Error", Token: "a"}, {CT: bp("text/plain"), Code: 200, Status: "200 OK", Token: "b"},
+			{CT: bp("application/x-none"), Code: 201, Status: "201 Created", Token: "c"}, {Code: 204, Status: "204 No Content", Token: "d"}},
+		{{CT: bp("text/plain"), Code: 200, Status: "200 OK", Token: "same"}, {CT: bp("text/plain"), Code: 200, Status: "200 OK", Token: "same"}, {CT: bp("application/json"), Code: 200, Status: "200 OK", Token: "other"}},
+		{{CT: bp(";"), Code: 200, Status: "200 OK", Token: "a"}, {CT: bp("application/json"), Code: 401, Status: "401 Unauthorized", Token: "b"}, {CT: bp("application/json"), Code: 403, Status: "403 Forbidden", Token: "c"},
+			{CT: bp("application/json"), Code: 409, Status: "409 Conflict", Token: "d"}, {CT: bp("application/json"), Code: 422, Status: "422 Unprocessable Entity", Token: "e"}, {CT: bp("application/json"), Code: 200, Status: "200 OK", Token: "f"}},
+	}
+	for _, calls := range seqs {
+		for _, reg := range [][]Bs{{"application/json", "text/plain"}, {"application/json", "*/*"}} {
+			out = append(out, c13In{Kind: "seq", Default: "application/json", Registry: reg, Calls: calls})
 		}
 	}
 	// client / context precedence: all eight combinations
